@@ -82,7 +82,10 @@ def ops : List (String × Handler) := [
       pure (Json.mkObj [("start", ofInt g.start), ("ref", ofStr (String.ofList g.refRegion))])),
   ("printer_headers", fun _ => pure (Json.mkObj [("tsv", ofS printer_tsv_header), ("bed", ofS printer_bed_header)])),
   ("merge_body", fun j => do
-      pure (ofList ofS (mergeBody (← jList jNat (← arg j "order")) (← jList (jList jS) (← arg j "parts")))))
+      pure (ofList ofS (mergeBody (← jNat (← arg j "header_lines")) (← jList jNat (← arg j "order"))
+              (← jList (jList jS) (← arg j "parts"))))),
+  ("merge_body_orig", fun j => do
+      pure (ofList ofS (mergeBodyOrig (← jList jNat (← arg j "order")) (← jList (jList jS) (← arg j "parts")))))
 ]
 
 end IsoVerif.Driver.C15Print
